@@ -46,6 +46,7 @@ package dir
 //@   modifies dip.Size, dip.blks[*], dirtyinum, wroteinum, abits, op.Atxn.allocBnums, []uint64@alloctxn.AllocTxn.allocBnums, []uint8@buf.Buf.Data, buf.Buf.dirty
 //@   ensures [ibits-same] abits[theIalloc] == old(abits)[theIalloc] @C05
 //@   ensures [E7-slot] result0 & 127 == 0 && result0 <= old(dip.Size) @C13
+//@   ensures [A2-written] result1 ==> wroteinum[dip.Inum] @C09 @C10
 //@   ensures [E7-grow] dip.Size == old(dip.Size) || (result1 && result0 == old(dip.Size) && dip.Size == old(dip.Size) + 128) @C13 @C09
 //@   ensures dirDone(dip, op) && dip.Kind == 2
 //@   loop 0 invariant off & 127 == 0 && lastoff <= off && finalOff == 0 && dip.Size == old(dip.Size) && dip.Kind == 2 && inodeInv(dip) && dirShape(dip) && opOpen(op) && dirtyInv() && allocInv() && (!dirtyinum[dip.Inum] || old(dirtyinum)[dip.Inum]) && othersClean(dip) && listsStable(op.Atxn)
@@ -113,7 +114,13 @@ package dir
 //@   loop 0 decreases dip.Size - off
 //@   loop 0 invariant [ibits] abits[theIalloc] == old(abits)[theIalloc]
 
-// Fn5 (C02), S3 (C10): the name cache and the name map.
+// Fn5 (C02), S3 (C10, C09): the name cache and the name map. dnames is the
+// directory's content in the running transaction; the name cache, when
+// present, answers every lookup exactly as dnames would (dcacheOK). S3 is a
+// global invariant: assumed when a directory operation starts (and for a
+// cache freshly built by enumeration), checked when AddName / RemName end.
+//@ specfunc cname(dip *inode.Inode, n string) = ite(indom(dip.Dcache.cache, n), dip.Dcache.cache[n].Inum, 0)
+//@ specfunc dcacheOK(dip *inode.Inode) = dip.Dcache != nil ==> (forall n string :: cname(dip, n) == dnames[dip.Inum][n])
 //@ specfunc dirModsOK(dip *inode.Inode, op *fstxn.FsTxn) = dirDone(dip, op) && dip.Kind == old(dip.Kind)
 
 //@ spec mkDcache
@@ -124,6 +131,7 @@ package dir
 //@   modifies dip.Dcache, dip.blks[*], dirtyinum, wroteinum, abits, op.Atxn.allocBnums, []uint64@alloctxn.AllocTxn.allocBnums, []uint8@buf.Buf.Data, buf.Buf.dirty, nfstypes.Entry3, cell:*nfstypes.Entry3, map[string]dcache.Dentry, emitted, emitany, emitlast, lastcookie, lastfileid, lastname, lasthino, lasthgen, lastattrid
 //@   ensures [ibits-same] abits[theIalloc] == old(abits)[theIalloc] @C05
 //@   ensures dip.Dcache != nil && fresh(dip.Dcache) && dip.Dcache.Lastoff == 0
+//@   assumes [S3-built] dcacheOK(dip)
 //@   ensures dirModsOK(dip, op) && dip.Size == old(dip.Size)
 
 //@ spec LookupName
@@ -134,7 +142,9 @@ package dir
 //@   modifies dip.Dcache, dip.blks[*], dirtyinum, wroteinum, abits, op.Atxn.allocBnums, []uint64@alloctxn.AllocTxn.allocBnums, []uint8@buf.Buf.Data, buf.Buf.dirty, nfstypes.Entry3, cell:*nfstypes.Entry3, map[string]dcache.Dentry, emitted, emitany, emitlast, lastcookie, lastfileid, lastname, lasthino, lasthgen, lastattrid
 //@   ensures [ibits-same] abits[theIalloc] == old(abits)[theIalloc] @C05
 //@   ensures [Fn5-notdir] dip.Kind != 2 ==> result0 == 0 @C02
-//@   assumes [Fn5-lookup] dip.Kind == 2 ==> result0 == dnames[dip.Inum][name]
+//@   entryassumes [S3-coherent] dcacheOK(dip)
+//@   ensures [Fn5-lookup] dip.Kind == 2 ==> result0 == dnames[dip.Inum][name] @C02 @C10
+//@   ensures [S3-coherent] dcacheOK(dip) @C10
 //@   assumes [I3-validinum] result0 < 32768 && (result0 != 0 ==> result1 & 127 == 0 && result1 < dip.Size && liveinum[result0])
 //@   assumes [I6-selfonlydot] result0 != 0 && result0 == dip.Inum ==> isDot(name)
 //@   assumes [I6-rootonlydots] result0 == 1 ==> isDot(name) || isDotDot(name)
@@ -151,6 +161,9 @@ package dir
 //@   ensures [E7-slot] result1 ==> result0 & 127 == 0 && result0 < dip.Size @C13
 //@   ensures [E7-size] dip.Size == old(dip.Size) @C13 @C09
 //@   ensures [Fn5-found] result1 ==> dip.Kind == 2 && old(dnames)[dip.Inum][name] != 0 @C02
+//@   entryassumes [S3-coherent] dcacheOK(dip)
+//@   ensures [S3-coherent] dcacheOK(dip) @C10
+//@   ensures [A2-written] result1 ==> wroteinum[dip.Inum] @C09 @C10
 //@   ensures dirModsOK(dip, op) && (dip.Kind == 2 ==> dip.Dcache != nil)
 //@   ensures [dcache-id] (old(dip.Dcache) != nil ==> dip.Dcache == old(dip.Dcache)) && (dip.Dcache == old(dip.Dcache) || fresh(dip.Dcache))
 
@@ -167,6 +180,9 @@ package dir
 //@   ghostexit dnames = ite(result, store(dnames, dip.Inum, store(dnames[dip.Inum], name, inum)), dnames)
 //@   ensures [Q1-refuse] (len(name) > 112 || dip.Kind != 2) ==> !result && dip.Size == old(dip.Size) && dirtyinum == old(dirtyinum) @C19 @C09
 //@   ensures [Fn5-add] result ==> dnames[dip.Inum][name] == inum && dip.Kind == 2 @C02
+//@   entryassumes [S3-coherent] dcacheOK(dip)
+//@   ensures [S3-coherent] dcacheOK(dip) @C10 @C09 @C02
+//@   ensures [A2-written] result ==> wroteinum[dip.Inum] @C09 @C10 @C02
 //@   ensures [Fn5-frame] forall d uint64, n string :: !(d == dip.Inum && n == name) ==> dnames[d][n] == old(dnames)[d][n] @C02
 //@   ensures [E7-grow] dip.Size == old(dip.Size) || (result && dip.Size == old(dip.Size) + 128) @C13 @C09
 //@   ensures dirModsOK(dip, op) && (result ==> dip.Dcache != nil)
@@ -182,6 +198,9 @@ package dir
 //@   ghostexit dnames = ite(result, store(dnames, dip.Inum, store(dnames[dip.Inum], name, 0)), dnames)
 //@   panic_assumed "RemName"
 //@   ensures [Fn5-rem] result ==> old(dnames)[dip.Inum][name] != 0 && dnames[dip.Inum][name] == 0 && dip.Kind == 2 @C02
+//@   entryassumes [S3-coherent] dcacheOK(dip)
+//@   ensures [S3-coherent] dcacheOK(dip) @C10 @C09 @C02
+//@   ensures [A2-written] result ==> wroteinum[dip.Inum] @C09 @C10 @C02
 //@   ensures [Fn5-frame] forall d uint64, n string :: !(d == dip.Inum && n == name) ==> dnames[d][n] == old(dnames)[d][n] @C02
 //@   ensures [E7-size] dip.Size == old(dip.Size) @C13 @C09
 //@   ensures dirModsOK(dip, op) && (result ==> dip.Dcache != nil)
